@@ -43,8 +43,9 @@ def gen_layout(rng, strata=()):
 
     g = Gen(rng, strata)
     n_theta = rng.randint(2, 6)
-    n_eta = rng.randint(1, 4)
+    n_eta = rng.choice([1, 2, 3, 4, 4, 5, 5, 6])
     n_eps = rng.randint(1, 2)
+    n_theta = max(n_theta, min(n_eta, 6))
     g.n_theta, g.n_eta, g.n_eps = n_theta, n_eta, n_eps
     theta_txt, tvals = g.theta_records(n_theta)
     # (v)xn is a known-finding construct: only with stratum 'xn'
@@ -171,6 +172,24 @@ def edits():
         k = r.randint(2, min(3, len(names) - 1))
         i = r.randint(0, len(names) - k)
         sel = names[i:i + k]
+        if r.random() < 0.6:
+            # exactly the etas of ONE $OMEGA record that holds several of them (as the records stand in the code now)
+            from vp import nmtran_ref as R
+
+            try:
+                sizes = [len(R.parse_omega_records([cont])) if not re.search(r"\bBLOCK\b", cont, re.I)
+                         else sum(b.size for b in R.parse_omega_records([cont]))
+                         for nme, cont in R.split_records(m.code) if nme == "OMEGA"]
+                runs, pos = [], 0
+                for sz in sizes:
+                    if 2 <= sz < len(names):
+                        runs.append((pos, sz))
+                    pos += sz
+                if runs and pos == len(names):
+                    i, k = r.choice(runs)
+                    sel = names[i:i + k]
+            except Exception:
+                pass
         touched.update(sel)
         touched.add("__rv_structure__")
         return pm.remove_iiv(m, sel)
